@@ -111,6 +111,11 @@ type Attr struct {
 	// it is not written again at the use site.
 	DefaultFromAlias bool       `json:"default_from_alias,omitempty"`
 	Meta             [][]string `json:"meta,omitempty"` // [key, values…] in declaration order
+	// VAtMapping: V is written in the HTTP mapping of the attribute
+	// (Param("x", func(){ Maximum(50) }), Header, Cookie) instead of in the
+	// attribute itself. The effective validation is the same; this is the only
+	// place where the DSL lets an attribute of a user type carry bounds of its own.
+	VAtMapping bool `json:"v_at_mapping,omitempty"`
 	// View selects the view used to render a nested result type (Meta "view" / View DSL inside Attribute).
 	View string `json:"view,omitempty"`
 }
